@@ -88,8 +88,11 @@ func (in *inst) list(list []ast.Stmt, startKind string) []ast.Stmt {
 		if in.every && i > 0 {
 			out = append(out, in.ycall(s.Pos(), "stmt"))
 		}
-		if w := in.chanWait(s); w != nil {
-			out = append(out, w)
+		pre, post := in.chanWait(s)
+		out = append(out, pre...)
+		if post != nil {
+			out = append(out, s, post)
+			continue
 		}
 		if ls, ok := s.(*ast.LabeledStmt); ok && !in.brkLabel[ls.Label.Name] {
 			switch ls.Stmt.(type) {
@@ -113,9 +116,42 @@ func simCall(name string, arg ast.Expr) ast.Stmt {
 	}}
 }
 
-// chanWait returns the wait call to put in front of a statement-level channel
-// operation (send, receive, close), or nil.
-func (in *inst) chanWait(s ast.Stmt) ast.Stmt {
+func hasCall(e ast.Expr) bool {
+	found := false
+	ast.Inspect(e, func(n ast.Node) bool {
+		switch n.(type) {
+		case *ast.CallExpr:
+			found = true
+		case *ast.FuncLit:
+			return false
+		}
+		return !found
+	})
+	return found
+}
+
+func afterChanOp(isSend bool) ast.Stmt {
+	v := "false"
+	if isSend {
+		v = "true"
+	}
+	return simCall("AfterChanOp", ast.NewIdent(v))
+}
+
+// chanWait returns what to put in front of (and, for a send or receive,
+// behind) a statement-level channel operation (send, receive, close, select).
+func (in *inst) chanWait(s ast.Stmt) (pre []ast.Stmt, post ast.Stmt) {
+	w, post := in.chanWait1(s, &pre)
+	if w != nil {
+		pre = append(pre, w)
+	}
+	return pre, post
+}
+
+var hoisted int
+
+func (in *inst) chanWait1(s ast.Stmt, pre *[]ast.Stmt) (ast.Stmt, ast.Stmt) {
+	var post ast.Stmt
 	recvOf := func(e ast.Expr) ast.Expr {
 		if u, ok := e.(*ast.UnaryExpr); ok && u.Op == token.ARROW {
 			return u.X
@@ -125,10 +161,21 @@ func (in *inst) chanWait(s ast.Stmt) ast.Stmt {
 	var w ast.Stmt
 	switch x := s.(type) {
 	case *ast.SendStmt:
+		if hasCall(x.Value) {
+			// the value is computed before the send can block: keep it that
+			// way, outside the window in which the statement may run without
+			// the run token (zzsim rendezvous)
+			hoisted++
+			nm := ast.NewIdent("zzsend" + strconv.Itoa(hoisted))
+			*pre = append(*pre, &ast.AssignStmt{Lhs: []ast.Expr{nm}, Tok: token.DEFINE, Rhs: []ast.Expr{x.Value}})
+			x.Value = ast.NewIdent(nm.Name)
+		}
 		w = simCall("WaitSend", x.Chan)
+		post = afterChanOp(true)
 	case *ast.ExprStmt:
 		if ch := recvOf(x.X); ch != nil {
 			w = simCall("WaitRecv", ch)
+			post = afterChanOp(false)
 		} else if c, ok := x.X.(*ast.CallExpr); ok {
 			if id, ok := c.Fun.(*ast.Ident); ok && id.Name == "close" && len(c.Args) == 1 {
 				w = simCall("Closed", c.Args[0])
@@ -138,6 +185,7 @@ func (in *inst) chanWait(s ast.Stmt) ast.Stmt {
 		if len(x.Rhs) == 1 {
 			if ch := recvOf(x.Rhs[0]); ch != nil {
 				w = simCall("WaitRecv", ch)
+				post = afterChanOp(false)
 			}
 		}
 	case *ast.SelectStmt:
@@ -167,7 +215,7 @@ func (in *inst) chanWait(s ast.Stmt) ast.Stmt {
 		p := in.fset.Position(s.Pos())
 		if hasDefault {
 			rep.ChanWrapped = append(rep.ChanWrapped, fmt.Sprintf("%s:%d(select/default)", in.rel, p.Line))
-			return nil
+			return nil, nil
 		}
 		w = &ast.ExprStmt{X: &ast.CallExpr{
 			Fun: &ast.SelectorExpr{X: ast.NewIdent("zzsim"), Sel: ast.NewIdent("WaitSelect")},
@@ -182,7 +230,7 @@ func (in *inst) chanWait(s ast.Stmt) ast.Stmt {
 		p := in.fset.Position(s.Pos())
 		rep.ChanWrapped = append(rep.ChanWrapped, fmt.Sprintf("%s:%d", in.rel, p.Line))
 	}
-	return w
+	return w, post
 }
 
 func (in *inst) body(b *ast.BlockStmt, kind string) {
@@ -250,7 +298,15 @@ func unwrappable(f *ast.File) (found []string) {
 		case *ast.AssignStmt:
 			if len(x.Rhs) == 1 {
 				if u, ok := x.Rhs[0].(*ast.UnaryExpr); ok && u.Op == token.ARROW {
-					stmtLevel[u] = true
+					simple := !hasCall(u.X)
+					for _, l := range x.Lhs {
+						if hasCall(l) {
+							simple = false // a call on the left would run inside the rendezvous window
+						}
+					}
+					if simple {
+						stmtLevel[u] = true
+					}
 				}
 			}
 		}
